@@ -36,8 +36,9 @@ Diag(why, x) == PrintT(ToJson([diag |-> l, why |-> why, x |-> x]))
 Init == l = 1 /\ cache = << >> /\ scores = << >> /\ pending = << >> /\ rootmax = TRUE
 Adv == l' = l + 1
 
+\* (Ev.fresh = FALSE: the next search of a game with the SAME context -- the cache is kept)
 TBegin == /\ Ev.ev = "Begin"
-          /\ cache' = << >> /\ scores' = << >> /\ pending' = << >> /\ rootmax' = Ev.rootmax /\ Adv
+          /\ cache' = (IF "fresh" \in DOMAIN Ev /\ ~Ev.fresh THEN cache ELSE << >>) /\ scores' = << >> /\ pending' = << >> /\ rootmax' = Ev.rootmax /\ Adv
 TTaskBegin == /\ Ev.ev = "TaskBegin" /\ UNCHANGED <<cache, scores, pending, rootmax>> /\ Adv
 TTaskEnd == /\ Ev.ev = "TaskEnd"
             /\ scores' = [t \in DOMAIN scores \cup {Ev.task} |-> IF t = Ev.task THEN Ev.value ELSE scores[t]]
